@@ -6,6 +6,7 @@ import (
 	"go/token"
 	"math/big"
 	"path/filepath"
+	"strings"
 )
 
 // Named constants the models and theorems depend on. Each is read from the
@@ -59,6 +60,11 @@ func genConstants(o *out) {
 			o.defN(cs.coq, v, src)
 		}
 	}
+
+	// The pipelined upstreams of NewUpstream: (queue limit while dialing, limit of the dialled connection),
+	// one pair per transport that sets both, in source order. Queries queued while dialing are served
+	// by the dialled connection only if the first does not exceed the second (c09_early_callers_served).
+	pipelineLimitPairs(o)
 
 	// dns.MaxMsgSize as the writers use it: evaluate the right operand of the
 	// "len > dns.MaxMsgSize" guards.
@@ -189,4 +195,77 @@ func genConstants(o *out) {
 		}
 		o.defN(coq, val, file+" "+fn+": loop bound")
 	}()
+}
+
+
+func pipelineLimitPairs(o *out) {
+	const coq = "upstream_pipeline_limits"
+	const file = "pkg/upstream/upstream.go"
+	pf, err := parseFile(filepath.Join(repo, file))
+	if err != nil {
+		o.missing(coq, err.Error())
+		return
+	}
+	fd := funcDecl(pf, "NewUpstream")
+	if fd == nil {
+		o.missing(coq, "func NewUpstream not found in "+file)
+		return
+	}
+	files := parseDir(filepath.Dir(filepath.Join(repo, file)))
+	type kv struct {
+		pos  token.Pos
+		conn bool
+		e    ast.Expr
+	}
+	var kvs []kv
+	ast.Inspect(fd.Body, func(n ast.Node) bool {
+		if x, ok := n.(*ast.KeyValueExpr); ok {
+			if id, ok := x.Key.(*ast.Ident); ok {
+				switch id.Name {
+				case "MaxConcurrentQuery":
+					kvs = append(kvs, kv{x.Pos(), true, x.Value})
+				case "MaxConcurrentQueryWhileDialing":
+					kvs = append(kvs, kv{x.Pos(), false, x.Value})
+				}
+			}
+		}
+		return true
+	})
+	// source order: a connection limit pairs with the next queue limit after it
+	for i := range kvs {
+		for j := i + 1; j < len(kvs); j++ {
+			if kvs[j].pos < kvs[i].pos {
+				kvs[i], kvs[j] = kvs[j], kvs[i]
+			}
+		}
+	}
+	var pairs []string
+	var pending *kv
+	bad := false
+	for i := range kvs {
+		k := kvs[i]
+		if k.conn {
+			pending = &kvs[i]
+			continue
+		}
+		if pending == nil {
+			continue // a transport whose connections have no configured limit (quic)
+		}
+		c := &evalCtx{pf: pf, files: files, scope: "NewUpstream"}
+		qv, err1 := eval(c, k.e, 0)
+		c2 := &evalCtx{pf: pf, files: files, scope: "NewUpstream"}
+		cv, err2 := eval(c2, pending.e, 0)
+		if err1 != nil || err2 != nil {
+			bad = true
+			break
+		}
+		pairs = append(pairs, fmt.Sprintf("(%s, %s)", qv.String(), cv.String()))
+		pending = nil
+	}
+	if bad || len(pairs) == 0 {
+		o.missing(coq, file+" NewUpstream: the limits of the pipelined transports could not be evaluated")
+		return
+	}
+	fmt.Fprintf(&o.buf, "Definition %s : list (N * N) := [%s]. (* %s NewUpstream: (MaxConcurrentQueryWhileDialing, MaxConcurrentQuery) of each pipelined transport *)\n",
+		coq, strings.Join(pairs, "; "), file)
 }
